@@ -9,7 +9,7 @@ from . import c01, c02
 
 PROP = 'C07'
 CONFIGS = ('default',)
-SIGMA = ['a', ' ', '\t', '{', '}', '{{', '}}', '!r', '!', ':', '=', '==', '<', '>', '(', ')', '[', ']', '"', '"""', '.', '#', '\\n', '\\x41', '\\{', '\\N{DASH}', '\n', '\r\n']
+SIGMA = ['a', ' ', '\t', '{', '}', '{{', '}}', '!r', '!', ':', '=', '==', '<', '>', '(', ')', '[', ']', '"', '"""', '.', '#', '\\n', '\\x41', '\\{', '\\N{DASH}', '\n', '\r\n', '\\101', '\\0', '\\33', '\\u00e9', 'é']
 WRAPPERS = [("f'", "'"), ("f'''", "'''"), ("rf'", "'"), ('F"', '"')]
 
 EXPRS = ['a', 'a.b', 'a[0]', 'a["k"]', 'a[1:2]', 'a == b', 'a != b', 'a < b', '(a := 1)', '(lambda: 1)', '(lambda x: x)(1)', '{1: 2}[1]', '{1, 2}', '[x for x in a]', 'a if b else c',
@@ -17,7 +17,7 @@ EXPRS = ['a', 'a.b', 'a[0]', 'a["k"]', 'a[1:2]', 'a == b', 'a != b', 'a < b', '(
 CONVS = ['', '!r', '!s', '!a', ' !r', '!r ']
 SPECS = ['', ':', ':x', ':>10', ':{w}', ':{w}.{p}', ':>{w}x', ':{w!r}', ':{w:{p}}', ':é', ': ', ':}}', ':{{', ':\\n', ':\\x41', ':!r', '::', ':=']
 EQS = ['', '=', ' = ', '= ', ' =']
-PIECES = [('', ''), ('x', 'y'), ('{{', '}}'), ('\\n', '\\t'), ('é', '名')]
+PIECES = [('', ''), ('x', 'y'), ('{{', '}}'), ('\\n', '\\t'), ('é', '名'), ('\\101', '\\0'), ('\\N{DASH}\\u00e9', '\\33[0m')]
 
 
 def field_product(tier):
